@@ -900,10 +900,12 @@ fn dir_event(log: &mut Log, l: &[u8], s: &[u8], rg: &[u8]) {
               if rg.is_empty() { None } else { Some(Region::from_bytes(rg).ok()?) }, &[]))
     };
     if let Some(li) = mk() {
-        if let Ok(d) = guard(|| li.character_direction()) {
+        // asked twice in a row: the answer is a function of the identifier
+        if let Ok((d, d2)) = guard(|| (li.character_direction(), li.character_direction())) {
             let name = format!("{:?}", d);
             log.ev(json!({"op":"dir","l": b(li.language.as_str()),"s": li.script.map(|q| b(q.as_str())).unwrap_or(json!([])),
-                          "r": li.region.map(|q| b(q.as_str())).unwrap_or(json!([])),"likely": cfg!(feature = "likelysubtags"),"dir": name}));
+                          "r": li.region.map(|q| b(q.as_str())).unwrap_or(json!([])),"likely": cfg!(feature = "likelysubtags"),"dir": name,
+                          "dir2": format!("{:?}", d2)}));
         }
     }
 }
